@@ -35,6 +35,12 @@ func ContextForStoringResults(ctx context.Context) context.Context {
 }
 
 func ContextForPreparedStatement(ctx context.Context, values *ReplaceValues) context.Context {
+	if values != nil {
+		// The caller's list is not touched (it may be shared): the link is set on a copy.
+		linked := *values
+		linked.outer, _ = ctx.Value(StatementReplaceValuesContextKey).(*ReplaceValues)
+		values = &linked
+	}
 	return context.WithValue(ctx, StatementReplaceValuesContextKey, values)
 }
 
